@@ -22,7 +22,7 @@ ASSUMPTIONS = ["the scheduler serialises real threads; a race whose window lies 
                "oracle (5) (screen = printed lines in file order + last frame) is evaluated for Live displays whose "
                "frames carry unique tokens; see the known finding about the print-versus-refresh window",
                "a wall-clock watchdog (30 s per schedule) firing is inconclusive"]
-REQUIRED = ["mon.record_conservation_across_clearing_exports", "mon.redirected_prints", "mon.log_call_site", "mon.nonterminal_final_frame", "mon.schedules", "mon.exactly_once_contiguous", "mon.capture_isolation", "mon.record_order",
+REQUIRED = ["mon.console_clean_after_stop", "mon.record_conservation_across_clearing_exports", "mon.redirected_prints", "mon.log_call_site", "mon.nonterminal_final_frame", "mon.schedules", "mon.exactly_once_contiguous", "mon.capture_isolation", "mon.record_order",
             "mon.deadlock_detector", "mon.screen_replay", "mon.context_switches"]
 MIN_NONTRIVIAL = {"quick": 800, "thorough": 50000}
 
@@ -168,7 +168,17 @@ def wl_schedules(ctx, rng, case_no):
         strategy = S.RandomWalk(sseed, switch_prob=rng.choice([0.02, 0.1, 0.3]))
     else:
         strategy = S.PCT(sseed, depth=int(strat_kind[3]), est_steps=rng.choice([300, 1000, 3000]))
-    execute(ctx, prog, display, terminal, rng.choice([0, 1, 2, 3]), rng.choice([6, 12]), strategy, strat_kind, sseed)
+    firings, height = rng.choice([0, 1, 2, 3]), rng.choice([6, 12])
+    # one program in five with a display leaves the START to the workers: two or more of them start it (start() is
+    # documented to be idempotent), from a stream of its own so that the other cases stay what they were
+    import random as _random
+    r2 = _random.Random("late/%d" % sseed)
+    late = display != "none" and r2.random() < 0.2
+    if late:
+        starters = r2.sample(range(len(prog)), min(len(prog), r2.choice([2, 2, 3])))
+        for th in starters:
+            prog[th].insert(0, ["start"])
+    execute(ctx, prog, display, terminal, firings, height, strategy, strat_kind, sseed, late_start=late)
 
 
 def wl_concurrent_logs(ctx, rng, case_no):
@@ -281,7 +291,7 @@ def wl_dfs(ctx, rng, case_no):
     ctx.hist("dfs_space_exhausted", "yes" if exhausted else "no")
 
 
-def execute(ctx, prog, display, terminal, firings, height, strategy, strat_kind, sseed, plan_of=None):
+def execute(ctx, prog, display, terminal, firings, height, strategy, strat_kind, sseed, plan_of=None, late_start=False):
     # a transient display clears itself on stop(): the final-screen oracle then expects no frame at all
     from rv.core.ctx import stable_hash
     transient = stable_hash((repr(prog), sseed, firings)) % 4 == 0
@@ -417,7 +427,8 @@ def execute(ctx, prog, display, terminal, firings, height, strategy, strat_kind,
             if display.startswith("progress"):
                 live.add_task("K0", total=50)
                 live.add_task("K1", total=50)
-            live.start()
+            if not late_start:
+                live.start()
         workers = [sched.spawn("T%d" % th, worker(th)) for th in range(len(prog))]
         me = sched.me()
         for w in workers:
@@ -425,6 +436,12 @@ def execute(ctx, prog, display, terminal, firings, height, strategy, strat_kind,
                 sched.block(me, ("join", w))
         if live is not None:
             live.stop()
+            # after the display has been stopped nothing of it is left in the console: no render hook, and a print
+            # writes its own text and nothing else
+            after["hooks"] = len(console._render_hooks)
+            after["mark"] = len(file.writes)
+            console.print(Text("Z:after"))
+    after = {}
     sched.spawn("M", coordinator)
     outcome = sched.run(timeout=30.0)
     _uninstrument()
@@ -444,6 +461,13 @@ def execute(ctx, prog, display, terminal, firings, height, strategy, strat_kind,
         ctx.violation("exception-in-thread:%s:%s" % (display, sched.errors[0][1][:50]), dict(wit, errors=sched.errors[:2]))
         return
     ctx.count("mon.context_switches", sched.switches)
+    if after:
+        ctx.count("mon.console_clean_after_stop")
+        tail = "".join(w[2] for w in file.writes[after["mark"]:])
+        if after["hooks"] or tail != "Z:after\n":
+            ctx.violation("display-left-installed-after-stop:%s%s" % (display, ":started-by-several-threads" if late_start else ""),
+                          dict(wit, render_hooks_after_stop=after["hooks"], print_after_stop_wrote=tail[:200]))
+            return
     stream = file.getvalue()
     dec = sgr.decode(stream)
     text = dec.text
